@@ -552,7 +552,7 @@ Proof.
 Qed.
 Lemma read_symbols_ok fuel x : WF x -> GoodL x (read_symbols api_next fuel x).
 Proof.
-  intros Hw. unfold read_symbols. destruct (negb (x_type x =? TList)); [apply GoodL_ret; exact Hw|].
+  intros Hw. unfold read_symbols. destruct (negb (x_type x =? TList) || x_is_null x); [apply GoodL_ret; exact Hw|].
   apply (in_container x (fun x1 => read_symbols_loop api_next fuel x1 []) (fun a x3 => (x3, Ok a)) (fun r => r)); auto using harmless_id.
   - intros; apply read_symbols_loop_ok; assumption.
   - intros; apply GoodL_ret; assumption.
@@ -604,7 +604,7 @@ Proof.
   { intros r. destruct (x_type x =? TSymbol); [|discriminate].
     destruct (x_err x); [intros E; injection E as <-; exact I|].
     destruct (x_value x) as [| | | | | | |tk| | |]; try discriminate.
-    destruct (tk_sid tk =? 3)%Z; [|discriminate].
+    destruct (is_append_marker tk); [|discriminate].
     destruct (x_lst x); intros E; injection E as <-; apply GoodL_ret; exact Hw. }
   match goal with |- GoodL x (match ?c with _ => _ end) => destruct c as [r|] end; [apply Hc; reflexivity|].
   destruct (negb (x_type x =? TList) || x_is_null x); [apply GoodL_ret; exact Hw|].
@@ -709,7 +709,9 @@ Proof.
         unfold of_res. match goal with |- hoare (_, ?r) _ => pose proof (new_symbol_token_np (x_lst (xs_tok (xs_tok x t1) t2)) v) as Hn;
           destruct r; cbn; auto end. }
       intros k x1 ->. cbn. split; [|reflexivity]. repeat split; cbn; auto.
-    - destruct (t_token (x_tok x) =? tokenSymbolQuoted).
+    - match goal with |- hoare ((if ?b then _ else _) _) _ => destruct b end.
+      { (* the version marker *) cbn. split; [|reflexivity]. repeat split; cbn; auto. }
+      destruct (t_token (x_tok x) =? tokenSymbolQuoted).
       + apply value_then_true; [|reflexivity]. apply set_value_spec; [exact E|intros T; cbn in T; congruence].
       + apply value_then_true; [|reflexivity]. apply on_symbol_spec; [exact E|intros T; cbn in T; congruence]. }
   match goal with |- hoare ((if ?b then _ else _) x) _ => destruct b eqn:K2 end.
@@ -907,7 +909,10 @@ Proof.
   { destruct (split_at_first _ (c :: l) []) as [[m ex]|]; [|discriminate].
     destruct ex; [discriminate|]. destruct (go_signed_val 10 (n :: ex)); [|discriminate].
     destruct (in_int32 z); discriminate. }
-  cbn [bind]. destruct (split_at_first _ inp []) as [[ip fp]|];
+  cbn [bind]. destruct (split_at_first _ inp []) as [[ip fp]|].
+  - destruct (_ <? _)%Z; cbn [bind]; [discriminate|].
+    match goal with |- context [go_signed_val 10 ?v] => destruct (go_signed_val 10 v) end; discriminate.
+  - cbn [bind].
     match goal with |- context [go_signed_val 10 ?v] => destruct (go_signed_val 10 v) end; discriminate.
 Qed.
 Lemma parse_ts_text_np l : parse_ts_text l <> Panic.
